@@ -538,7 +538,8 @@ main(int argc, char *argv[])
 		"argument-mode result of the value under the same -i/-f, tail copied (second value: its result), suffix; a zone-like tail may instead be taken into the "
 		"value (argument-mode result of value+tail). Families: tails (malformed minute/second/fraction and short zone offsets behind date, date-HM, date-HMS, HMS, HM), "
 		"padded-dmy/-dth/-hm (1-digit fields under -i %%d/%%m/%%Y, %%dth %%B %%Y, %%H:%%M behind blank, letters, digit+blank), epoch (-i %%s, 1..11 digits), epoch-comma (-i %%s, with the comma as needle), compact "
-		"(-i %%Y%%m%%d behind other digit runs), two-formats (-i %%Y%%m%%d -i %%d/%%m/%%Y, two values per line)", ex.thorough ? 2 : 1);
+		"(-i %%Y%%m%%d behind other digit runs), two-formats (-i %%Y%%m%%d -i %%d/%%m/%%Y, two values per line); round 2: negative epochs in front of a literal, Roman numeral fields, %%dth alone behind other numbers, "
+		"a non-ASCII literal in a sibling format, %%db first, %%T/%%F directly behind a field, blank padded digit-only formats, calendar names as -i with a time of day (dadd +1s)", ex.thorough ? 2 : 1);
 	fam_all();
 	/* second alphabet: streams of up to 4 tokens over {date, xx, NUL, 0x01, 0xff, blank, \n} with at
 	 * least one of the three byte tokens (the others are in the first enumeration) */
